@@ -17,47 +17,10 @@ def run(rep, prog, tier):
     rep.rule('R11.state', 'no hidden state in the anchored modules: no function writes a module-level object, no caching decorator / cached property')
     no_hidden_state(rep, 'R11.state', prog, ['Network/NodalAnalysis/state_space_model.py', 'Circuit/solution.py', 'SignalProcessing/state_space_model.py'])
     rep.rule('R11.lambda', 'Lambda = diag(-C..., +L...) taken from c_values / l_values in the order of the state incidence; invLambda is the element-wise reciprocal; A = invLambda @ S (left multiplication)')
+    rep.rule('R11.space', 'every product / stack that joins the state order (c_values then l_values) joins equal index spaces')
     rep.rule('R11.rest', 'the simulation starts from the zero state: lsim is called without an initial state (or with the zero vector passed by TransientSolution)')
     rep.assume('NOT DECIDED: definiteness of W A + A^T W, eigenvalue location, boundedness of simulated energy (run-time values)')
-    m = prog.mod(SR.SS)
-    f = prog.funcs.get(f'{SR.SS}::state_space_matrices.value_matrix')
-    if f is None:
-        rep.ob('R11.lambda', 'value_matrix', None, 'value_matrix not found'); return
-    # diag blocks: sign of the per-element term and the dictionary it iterates
-    blocks = []
-    for n in ast.walk(f.node):
-        if isinstance(n, ast.Call) and ast.unparse(n.func).endswith('diag') and n.args and isinstance(n.args[0], (ast.ListComp, ast.GeneratorExp)):
-            comp = n.args[0]
-            ev = Evaluator(prog)
-            env = {'__parent__': None, 'c_values': A('c_values'), 'l_values': A('l_values')}
-            t = ev.ev(comp, env, f.mod, 1)
-            if isinstance(t, Comp) and len(t.gens) == 1:
-                src = repr(t.gens[0][0])
-                p = as_poly(t.elt)
-                sg = None
-                if p.single() is not None and p.single()[1][1] == 0 and len(p.single()[0]) == 1 and p.single()[0][0][1] == 1 and abs(p.single()[1][0]) == 1:
-                    sg = 1 if p.single()[1][0] > 0 else -1
-                blocks.append((src, sg, n.lineno, n.col_offset))
-    blocks.sort(key=lambda b: (b[2], b[3]))
-    site = f.site
-    okC = len(blocks) >= 1 and 'c_values' in blocks[0][0] and 'values' in blocks[0][0] and blocks[0][1] == -1
-    okL = len(blocks) >= 2 and 'l_values' in blocks[1][0] and 'values' in blocks[1][0] and blocks[1][1] == +1
-    rep.ob('R11.lambda', 'block:C', okC if blocks else None, f'first diagonal block = {blocks[0] if blocks else None}: -C over c_values.values()', site)
-    rep.ob('R11.lambda', 'block:L', okL if len(blocks) > 1 else None, f'second diagonal block = {blocks[1] if len(blocks) > 1 else None}: +L over l_values.values()', site)
-    # layout of Lambda equals the state space (same order as DQ columns): from E4
-    interps = SR.analyse(prog)
-    lam_obs = [o for o in interps['ssm'].obs if 'value_matrix' in o.fn or (o.kind == 'matmul' and 'invLambda' in o.text)]
-    for i, o in enumerate(lam_obs):
-        rep.ob('R11.lambda', f'space:{o.fn.split(".")[-1]}:{o.kind}#{i}', o.verdict, f'{o.detail} [{o.text}]', o.site)
-    if len(lam_obs) < 4:
-        raise AnalysisError('space obligations of value_matrix / invLambda vanished')
-    # A = invLambda @ S and invLambda = diag(1/diag(Lambda)) : shared with R10.formula / R10.wiring
-    class _Sub:
-        def __init__(s, rep): s.rep = rep
-        def ob(s, rule, key, verdict, detail='', site='', **kw):
-            if (rule == 'R10.formula' and key == 'A') or key.startswith('invLambda') or key.startswith('Lambda<-'):
-                return s.rep.ob('R11.lambda', 'formula:' + key, verdict, detail, site)
-    c10_formulas(_Sub(rep), prog)
+    _lambda_rules(rep, prog)
     # ---- simulation from rest
     g = prog.func('SignalProcessing.state_space_model', 'continuous_state_space_solver')
     lsim = [n for n in ast.walk(g.node) if isinstance(n, ast.Call) and ast.unparse(n.func).endswith('lsim')]
@@ -83,3 +46,42 @@ def _head(k):
     if isinstance(k, tuple) and len(k) > 1 and k[0] == 'opq' and isinstance(k[1], str) and k[1].startswith('np.'): return k[1][3:]
     try: return Poly(dict(k[1:])).as_atom()[0]
     except Exception: return None
+
+
+def _lambda_rules(rep, prog):
+    from . import ssm as SSM
+    from ..diagalg import show as dshow, X
+    an = SSM.analyse(prog)
+    site = an['site']
+    if 'undecided' in an:
+        rep.ob('R11.lambda', 'value_matrix', None, an['undecided'], site); return False
+    blocks, d = SSM.lambda_blocks(an)
+    if blocks is None:
+        rep.ob('R11.lambda', 'value_matrix', None, f"no unique diagonal value matrix among the factors of A, B, C, D (roles {an['roles']})", site); return False
+    if d[0] == 'bad':
+        rep.ob('R11.lambda', 'block:count', False, f'value matrix {dshow(d)}', site); return False
+    inverted = SSM._is_inverse_lambda(d)
+    want = (X.inv().neg(), X.inv()) if inverted else (X.neg(), X)
+    def blk(i, which, f_want, text):
+        if len(blocks) <= i:
+            rep.ob('R11.lambda', f'block:{which.upper()}', False, f'diagonal has {len(blocks)} block(s): {dshow(d)}', site); return False
+        w, vals, f_ = blocks[i]
+        ok = (w == which and vals and (f_ == f_want or (inverted is None and f_ in (f_want, f_want.inv()))))
+        rep.ob('R11.lambda', f'block:{which.upper()}', bool(ok), f'diagonal block {i + 1} = {f_!r} over {w}_values.values(): {text}', site)
+    blk(0, 'c', want[0] if inverted is not None else X.neg(), '-C over c_values.values()' + (' (reciprocal taken)' if inverted else ''))
+    blk(1, 'l', want[1] if inverted is not None else X, '+L over l_values.values()' + (' (reciprocal taken)' if inverted else ''))
+    rep.ob('R11.lambda', 'block:count', len(blocks) == 2, f'value matrix = {dshow(d)}', site)
+    # layout of Lambda equals the state space (same order as DQ columns): from E4 -- every join whose spaces involve both value dictionaries
+    interps = SR.analyse(prog)
+    lam_obs = [o for o in interps['ssm'].obs if 'ord(c_values)' in o.detail and 'ord(l_values)' in o.detail and o.kind in ('matmul', 'hstack:other-axis', 'vstack:other-axis', 'concatenate:other-axis', 'elementwise', 'block:other-axis')]
+    for i, o in enumerate(lam_obs):
+        rep.ob('R11.space', f'{o.kind}#{i}', o.verdict, f'{o.detail} [{o.text}]', o.site)
+    if len(lam_obs) < 3:
+        rep.error('space obligations that join the (c_values, l_values) state order vanished')
+    # A = invLambda @ S : shared with R10.formula
+    class _Sub:
+        def __init__(s, rep): s.rep = rep
+        def ob(s, rule, key, verdict, detail='', site='', **kw):
+            if (rule == 'R10.formula' and key in ('A', 'ABCD')) or key.startswith('invLambda') or key.startswith('Lambda<-'):
+                return s.rep.ob('R11.lambda', 'formula:' + key, verdict, detail, site)
+    c10_formulas(_Sub(rep), prog)
